@@ -500,7 +500,7 @@ func init() {
 		Rule: "schemas of the rule-free fragment (depth<=5, width<=4, optional/nullable/type any mixed in) generated from the abstract model, both key-optionality options; " +
 			"documents: conforming-by-construction, single-feature near misses (wrong kind, null, int/float flip, key dropped/added/repeated, elements past the end, emptied array) and unrelated JSON; " +
 			"oracle = example-shape reference model. Small-scope part: all schemas with <=3 nodes over keys a,b x all documents with <=3 (quick) / <=4 (thorough) nodes. " +
-			"Non-trivial = a distinct (schema text, option) accepted by Check on which documents were judged.",
+			"Non-trivial = a distinct (schema text, option) accepted by Check on which documents were judged. Round 6: a generated schema that Check refuses is a violation (kind legal), not a skipped case.",
 		Assumptions: []string{
 			"the reference model is an independent reading of the property statement (DESIGN.md Appendix A lists the interpretation choices)",
 			"schemas the generator believes valid but Check rejects are skipped and counted (Check's verdict is C08's subject)",
